@@ -293,8 +293,10 @@ def build_jobs(ctx, nodriver=False):
             ns = sorted(set(r.randrange(n, p ** (D + 1)) for _ in range(cnt)))
             for lo, hi in B._chunks(0, len(ns), 2):
                 add('exhaustive', dname, (hi - lo) * 2e-3, list=ns[lo:hi], nvar=1)
-    for dname, top in (('2b', 64 if T else 20), ('3', 16 if T else 10), ('5', 10 if T else 7), ('7', 8 if T else 6),
-                       ('11', 7 if T else 5), ('13', 5), ('101', 4 if T else 3)):
+    # composite degrees matter: irreducible binomials X^d + c exist iff every prime factor of d divides p-1 (and 4 | p-1 if
+    # 4 | d), e.g. (p, d) = (5, 8), (7, 9), (13, 8), (13, 9): the least irreducible is then X^d + c
+    for dname, top in (('2b', 64 if T else 20), ('3', 16 if T else 10), ('5', 12 if T else 9), ('7', 10 if T else 9),
+                       ('11', 10 if T else 6), ('13', 9), ('101', 4 if T else 3)):
         add('find', dname, 8 if dname == '2b' else 3, degrees=list(range(1, top + 1)))
     for p, cnt, cn, md, mdn, db in ((11, ctx.scale(300, 3000), ctx.scale(100, 1000), 12, 8, 4),
                                     (101, ctx.scale(300, 3000), ctx.scale(60, 600), 12, 5, 4)):
